@@ -123,7 +123,7 @@ func parseCPUList(s string) ([]int, error) {
 			continue
 		}
 		lo, hi, isRange := strings.Cut(part, "-")
-		a, err := strconv.Atoi(lo)
+		a, err := parseCPUID(lo)
 		if err != nil {
 			return nil, fmt.Errorf("bad cpulist entry %q: %w", part, err)
 		}
@@ -131,7 +131,7 @@ func parseCPUList(s string) ([]int, error) {
 			out = append(out, a)
 			continue
 		}
-		b, err := strconv.Atoi(hi)
+		b, err := parseCPUID(hi)
 		if err != nil {
 			return nil, fmt.Errorf("bad cpulist entry %q: %w", part, err)
 		}
@@ -143,6 +143,13 @@ func parseCPUList(s string) ([]int, error) {
 		}
 	}
 	return out, nil
+}
+
+// parseCPUID reads one unsigned decimal CPU number; unlike strconv.Atoi it refuses an explicit
+// sign, which the cpulist format does not have.
+func parseCPUID(s string) (int, error) {
+	v, err := strconv.ParseUint(s, 10, 31)
+	return int(v), err
 }
 
 func readIntFile(path string) (int, error) {
